@@ -5,14 +5,14 @@ HERE = os.path.dirname(os.path.dirname(os.path.abspath(__file__)))
 
 # id -> (technique, level text, level note, design ref)
 CHECKS = {
- "C16": ("property-based testing (proptest) against a reference GEPP + exact rational elimination; exhaustive small-integer enumeration; Higham backward-error bound in double-double",
+ "C16": ("property-based testing (proptest) + coverage-guided libFuzzer campaign with the same oracle (thorough tier) against a reference GEPP + exact rational elimination; exhaustive small-integer enumeration; Higham backward-error bound in double-double",
          "Generated search over real/complex matrices n<=12 of seven structural kinds with a rigorous backward-error oracle, plus complete enumeration of 3x3 matrices over {-1,0,1} (quick) / {-2..2} (thorough) for the singular<=>rejected equivalence. Exploration is the right level: the property is a numerical inequality over a continuum of inputs; the oracle is rigorous so one counterexample is decisive.",
          "Trusts the harness's reference elimination and double-double residual; constants 4/16 over the rigorous 1.5 n eps bound.", "DESIGN.md §4 C16"),
- "C17": ("model-based property testing (proptest): operation sequences against a dense Vec<f64> model; exhaustive constructor x bandwidth x operation enumeration",
+ "C17": ("model-based property testing (proptest) + coverage-guided libFuzzer campaign with the same oracle (thorough tier): operation sequences against a dense Vec<f64> model; exhaustive constructor x bandwidth x operation enumeration",
          "Stateful generated sequences of <=12 matrix operations on operands from every public constructor, every entry compared with a dense model after every step; exhaustive over all (n<=5 quick / 8 thorough, ml, mu) x constructor x single operation.",
          "Dense model in the harness is the specification; numeric (==) equality of entries.", "DESIGN.md §4 C17"),
 }
-CHECKS["C03"] = ("property-based testing (proptest): generated configurations, invariant over the returned Solution and the call log of an instrumented IVP",
+CHECKS["C03"] = ("property-based testing (proptest) + coverage-guided libFuzzer campaign with the same oracle (thorough tier): generated configurations, invariant over the returned Solution and the call log of an instrumented IVP",
          "Generated search over problems x spans (1e-11..1e6, both directions, infinite with terminal event) x six methods x first_step/max_step/t_eval/dense/events/max_steps combinations; every ode/events/jac call time is recorded by an instrumented IVP and the status<->coverage equivalences are evaluated on each run.",
          "Time slack 4 ulp; 'xend to rounding' = 32 ulp; 8% of the cases with a right-hand side turning non-finite; panics/hangs are owned by C04.", "DESIGN.md §4 C03")
 CHECKS["C12"] = ("metamorphic property-based testing (proptest): plain run vs the 7 option subsets and a repeat; bit-identity of samples, statistics and a hash of every right-hand-side argument",
@@ -36,13 +36,13 @@ CHECKS["C08"] = ("two-phase property-based testing (proptest): event roots place
 CHECKS["C09"] = ("two-phase property-based testing (proptest) + libFuzzer campaign (thorough tier): sign pattern of g at the accepted steps vs reported events (exactly-one / none matching)",
          "Same two-phase placement; for every function and step the strict sign pattern at the step ends decides whether exactly one, none or any event may be attributed to the step; single-root time events must be found exactly once and located to 4e-12.",
          "Exact zeros at step ends are skipped (SciPy semantics, as the property allows).", "DESIGN.md §4 C09")
-CHECKS["C05"] = ("two-phase metamorphic property-based testing (proptest): requested times placed on / beside / between the plain run's step ends; bitwise comparison with t_eval and with the dense twin's Solution::sol",
+CHECKS["C05"] = ("two-phase metamorphic property-based testing (proptest) + coverage-guided libFuzzer campaign with the same oracle (thorough tier): requested times placed on / beside / between the plain run's step ends; bitwise comparison with t_eval and with the dense twin's Solution::sol",
          "Requested times are generated relative to the solver's own step grid (on a step end, 1e-13..1e-9 beside it, mid-step, duplicates, x0, xend), with terminal / non-terminal events and step budgets; exact oracles (bit equality of times and of interpolated values) plus the C01 accuracy bound and the early-stop completeness rule.",
          "Handler resolution 1e-12 as documented; accuracy constant as in C01.", "DESIGN.md §4 C05")
 CHECKS["C10"] = ("two-phase differential property-based testing (proptest): the same run with and without the terminal flags (twin), bit-identical prefix",
          "Event roots placed relative to the step grid (several functions in one step, either order), occurrence counts 1..3, with/without t_eval and dense output; the twin run without terminal flags defines where the run must stop and what must have been reported before.",
          "Ties of two terminal functions at the same instant skipped.", "DESIGN.md §4 C10")
-CHECKS["C04"] = ("property-based testing with fault injection (proptest): pathological right-hand sides and injected NaN/inf under a deterministic evaluation budget",
+CHECKS["C04"] = ("property-based testing with fault injection (proptest) + coverage-guided libFuzzer campaign with the same oracle (thorough tier): pathological right-hand sides and injected NaN/inf under a deterministic evaluation budget",
          "Generated blow-up / stiff / discontinuous problems and benign problems whose right-hand side turns non-finite at a generated time, through an instrumented IVP that aborts the run after 2e6 evaluations: termination is decided by a deterministic work count, panics are caught, Success with non-finite states is rejected; 'resonant' cases make the iteration matrix of Radau/BDF exactly singular at the first attempt and compare with a twin run. One genuine, unrepaired finding (K3: creep at the boundary of a state-dependent non-finite region) is keyed by a narrow diagnosis and excluded.",
          "Budget 2e6 evaluations vs <=1.2e5 observed; RK4 only required to terminate.", "DESIGN.md §4 C04")
 CHECKS["C13"] = ("metamorphic property-based testing (proptest): time reflection, power-of-two scaling, scalar-vs-vector tolerance, independent copies; bit-identity where the symmetry is exact in floating point",
